@@ -169,3 +169,43 @@ func HC04_names() {
 	vfKnown("C04/same-type-name-in-packages-sharing-a-4-letter-prefix", pre(p1n) == pre(p2n))
 	vfAssert(functionName(s1) != functionName(s2), "C04/distinct-types-have-distinct-validators")
 }
+
+// HC04_checkPerColumn: in the assembled script every jsonb column of every table has its own
+// CHECK constraint calling the validator (tables may share column names and column types).
+func HC04_checkPerColumn() {
+	pkg := skelPkg()
+	payload := skelStruct(pkg, skelNamed(pkg, "Payload", types.NewStruct(nil, nil)), []skelField{{name: "A", typ: an.Int}, {name: "S", typ: an.String}})
+	other := &an.Map{Key: an.String, Elem: an.Int}
+	colNames := []string{"Data", "Meta"}
+	mkTable := func(tag, name string) (*an.Struct, []string) {
+		var fields []skelField
+		fields = append(fields, skelField{name: "Id", typ: &an.Basic{B: types.Typ[types.Int64]}})
+		var cols []string
+		n := 1 + vfChoice(tag+"cols", 2)
+		for i := 0; i < n; i++ {
+			var ty an.Type = payload
+			if vfChoice(fmt.Sprint(tag, "type", i), 2) == 1 {
+				ty = other
+			}
+			fields = append(fields, skelField{name: colNames[i], typ: ty})
+			cols = append(cols, colNames[i])
+		}
+		return skelStruct(pkg, skelNamed(pkg, name, types.NewStruct(nil, nil)), fields), cols
+	}
+	t1, c1 := mkTable("t1.", "Alpha")
+	t2, c2 := mkTable("t2.", "Beta")
+	ana := &an.Analysis{Types: map[types.Type]an.Type{t1.Name: t1, t2.Name: t2}, Source: []types.Type{t1.Name, t2.Name}}
+	text := skelSquash(gen.WriteDeclarations(Generate(ana)))
+	ok := true
+	for ti, cols := range [][]string{c1, c2} {
+		table := []string{"alphas", "betas"}[ti]
+		for _, c := range cols {
+			n := skelCount(text, "ALTER TABLE "+table+" ADD CONSTRAINT "+c+"_gomacro CHECK (gomacro_validate_json_")
+			if n != 1 {
+				vfObserve("missing", table+"."+c)
+			}
+			ok = ok && n == 1
+		}
+	}
+	vfAssert(ok, "C04/every-jsonb-column-of-every-table-has-its-check-constraint")
+}
